@@ -57,12 +57,12 @@ func (g *G) Weighted(ws []int, label string) int {
 // siblings that sort between `d` and `d/` ('-' 0x2d, '.' 0x2e < '/' 0x2f < '0');
 // names that are prefixes / substrings of each other; regexp metacharacters.
 var (
-	bases    = []string{"a", "b", "d", "ad", "lib", "test", "x", "é", "Z", "build", "r\xe9sum\xe9", "rebuild", "mytest", "\xff", "~", "\xffz"}
-	suffixes = []string{"", "", "", ".go", ".c", "-old", "-data", "0", "1", " b", "(1)", "(", "+", "_", ".", "[", "ü", " ", "-", "+x", ".txt", ".log", ".tmp", ".tmpx", ".c++", "\xff", "%d", "%", "100%s", `\b`, `\`, ".gz", ".tar.gz"}
+	bases    = []string{"a", "b", "d", "ad", "lib", "test", "x", "é", "Z", "build", "r\xe9sum\xe9", "rebuild", "mytest", "\xff", "~", "\xffz", "#a", "!x"}
+	suffixes = []string{"", "", "", ".go", ".c", "-old", "-data", "0", "1", " b", "(1)", "(", "+", "_", ".", "[", "ü", " ", "-", "+x", ".txt", ".log", ".tmp", ".tmpx", ".c++", "\xff", "%d", "%", "100%s", `\b`, `\`, ".gz", ".tar.gz", ".tmp "}
 	// IgnoreDirs / IgnoreExts are what a generated .goitignore may contain. Extensions are never
 	// used in directory names, so "ignored" is unambiguous in the generated domain.
-	IgnoreDirs = []string{"build", "lib-old", "test.c", "r\xe9sum\xe9", "é-old"}
-	IgnoreExts = []string{".log", ".tmp", ".tmpx", ".c++", ".tar.gz"}
+	IgnoreDirs = []string{"build", "lib-old", "test.c", "r\xe9sum\xe9", "é-old", "#a", "!x"} // "#a", "!x": an entry is a name, not a remark or a negation
+	IgnoreExts = []string{".log", ".tmp", ".tmpx", ".c++", ".tar.gz", ".tmp "} // ".tmp ": the trailing blank belongs to the entry
 )
 
 // openNameExclusions: characters excluded from names while a finding is open.
@@ -460,7 +460,7 @@ func (g *G) UserName() string {
 }
 
 func (g *G) Email() string {
-	return rapid.StringMatching(`[a-zA-Z0-9_][a-zA-Z0-9_.+-]{0,7}@[a-z0-9]([a-z0-9-]{0,5}[a-z0-9])?(\.[a-z0-9]{1,4}){0,2}\.[a-zA-Z]{2,5}`).Draw(g.T, "email")
+	return rapid.StringMatching(`[a-zA-Z0-9_][a-zA-Z0-9_.+-]{0,14}@[a-zA-Z0-9]([a-zA-Z0-9-]{0,10}[a-zA-Z0-9])?(\.[a-z0-9]{1,9}){0,3}\.[a-zA-Z]{2,14}`).Draw(g.T, "email")
 }
 
 // BranchName draws from a small pool whose members are prefixes of each other.
